@@ -288,6 +288,7 @@ class KafkaClient(object):
                 pass
             else:
                 for partition in partitions:
+                    self.partition_meta.pop(TopicAndPartition(topic, partition), None)
                     try:
                         del self.topics_to_brokers[TopicAndPartition(topic, partition)]
                     except KeyError:
@@ -321,6 +322,7 @@ class KafkaClient(object):
         """
         self.topics_to_brokers.clear()
         self.topic_partitions.clear()
+        self.partition_meta.clear()
         self.topic_errors.clear()
         self._group_to_coordinator.clear()
 
